@@ -103,6 +103,20 @@ TSList == /\ IsEvent("slist")
                /\ Expect((SListExpect(sl) = "accepted" /\ Ev.handled = "accepted") => (Ev.write = "sent" /\ Ev.data = Ev.body), "body-not-sent-after-settings")
           /\ UNCHANGED vars
 
-TraceNext == TSList \/ TH2 \/ THpack \/ TRandH2 \/ THpInt \/ TFval
+(* seq{case,name,target,outs,last,follow,steps}: a legal prefix and one frame that may be illegal in the stream's state, through the
+   real connection object; outs = answer per step, last = answer to the test frame, follow = the next request afterwards *)
+TSeq == /\ IsEvent("seq")
+        /\ \E c \in SeqCases : c.name = Ev.name /\ c.target = Ev.target
+        /\ LET c == CHOOSE x \in SeqCases : x.name = Ev.name /\ x.target = Ev.target
+               complete == Len(Ev.outs) = Len(c.steps) IN
+             /\ Expect(\A i \in DOMAIN Ev.outs : Ev.outs[i] \notin {"panic", "loop"}, "connection-" \o Ev.last)
+             /\ Expect(\A i \in DOMAIN Ev.outs : i < Len(c.steps) => Ev.outs[i] \in {"ok", "pending", "stream-error"}, "legal-prefix-refused")
+             /\ Expect(~(complete /\ Ev.last \in {"ok", "pending"} /\ "ok" \notin c.allowed), "illegal-frame-accepted")
+             /\ Expect(~(complete /\ Ev.last \in Refused /\ c.allowed = {"ok"}), "legal-frame-refused")
+             /\ Expect(~(complete /\ Ev.last = "conn-error" /\ "conn-error" \notin c.allowed), "connection-given-up-for-a-stream-matter")
+             /\ Expect(~(complete /\ Ev.last \in {"ok", "pending", "stream-error"}) \/ Ev.follow \in {"served", "skipped"}, "connection-dead-after-sequence")
+        /\ UNCHANGED vars
+
+TraceNext == TSeq \/ TSList \/ TH2 \/ THpack \/ TRandH2 \/ THpInt \/ TFval
 TraceSpec == TraceInit /\ [][TraceNext]_tvars
 ====
